@@ -14,6 +14,7 @@ def check(ctx, rep):
     K.rule_unbuffered(ctx, rep)
     K.rule_get_addr(ctx, rep)
     S.rule_A1(ctx, rep, 'R3-A1')
+    S.rule_E1(ctx, rep, 'R3-E1')
     S.rule_A2_A3(ctx, rep)
     S.rule_lock_discipline(ctx, rep, 'R3-D1', methods=('flush',))
     # "datagrams of the form described in C05": the buffered UDP/Unix sinks share the line writer, so every framing
